@@ -188,6 +188,15 @@ func LoadWorld(repo string, cfg BuildConfig, contractFiles []string, extraPkgs [
 		if c.Kind == "spec" {
 			continue
 		}
+		if c.Kind == "model" {
+			pp := pkgPathOfDir(repo, c.PkgDir)
+			if sp := w.spkgs[pp]; sp == nil || sp.Func(c.StubName) == nil {
+				return w, fmt.Errorf("model function %s not found in %s", c.StubName, pp)
+			} else {
+				w.stubs[c] = sp.Func(c.StubName)
+			}
+			continue
+		}
 		pp := pkgPathOfDir(repo, c.PkgDir)
 		sp := w.spkgs[pp]
 		if sp == nil {
@@ -309,7 +318,7 @@ func (w *World) contractFor(fn *ssa.Function) *Contract {
 		q = "(" + star + pp + "." + recv + ")" + key[i+1:]
 	}
 	for _, c := range w.all {
-		if c.Kind == "extern" && c.Target == q {
+		if (c.Kind == "extern" || c.Kind == "model") && c.Target == q {
 			return c
 		}
 	}
